@@ -42,11 +42,13 @@ def creates_task(call):
 
 
 def settles_args(fn: ast.AST):
-    """summary: does this helper cancel-or-find-done every element of its (var)arg collection?"""
+    """summary: does this helper cancel-or-find-done every element of its (var)arg collection?  True / False (a recognised loop over the collection
+    that does not settle, or no use of it at all) / None (the collection is used in a form the summary does not follow)"""
     a = fn.args
     coll = a.vararg.arg if a.vararg else (a.args[-1].arg if a.args else None)
     if coll is None:
         return False
+    recognised_loop = False
     # (merely awaiting wait(<all of them>) is not settling: a pending task that is never cancelled may never complete, and the caller hangs)
     for s in fn.body:
         it = s.iter if isinstance(s, (ast.For, ast.AsyncFor)) else None
@@ -59,13 +61,19 @@ def settles_args(fn: ast.AST):
                    and isinstance(c.operand.func.value, ast.Name) and c.operand.func.value.id == v and not c.operand.args for c in g.ifs):
                 it = ast.Name(id=coll, ctx=ast.Load())
         if isinstance(s, (ast.For, ast.AsyncFor)) and isinstance(it, ast.Name) and it.id == coll and isinstance(s.target, ast.Name):
+            recognised_loop = True
             t = s.target.id
             st = {t: MAYBE}
             ts = TaskTypestate({}, lambda c: None)
             out = ts.run(s.body, st)
             if out.get(t) in SETTLED:
                 return True
-    return False
+    if recognised_loop:
+        return False
+    # every other use of the collection besides wait(coll) / gather(*coll) is a form this summary does not follow
+    uses = [n for n in ast.walk(fn) if isinstance(n, ast.Name) and n.id == coll and isinstance(n.ctx, ast.Load)]
+    plain = [n for n in ast.walk(fn) if isinstance(n, ast.Call) and call_name(n) in ("wait", "gather") for x in ast.walk(n) if isinstance(x, ast.Name) and x.id == coll]
+    return False if len(uses) == len(plain) else None
 
 
 class TaskTypestate:
@@ -75,6 +83,7 @@ class TaskTypestate:
         self.created = {}  # var -> (source text, lineno)
         self.sets = {}  # local name -> tuple of handle names (e.g. `pending` of `done, pending = await wait(S)`)
         self.on_finding = on_finding
+        self.escaped = []  # (line, what): handles / freshly created tasks handed to code the typestate does not follow
         self.on_await = None  # callback(stmt, awaited expression, state before) for every statement-level await
 
     def finding(self, line, var, what):
@@ -122,6 +131,17 @@ class TaskTypestate:
                     if st[n] in (PEND, MAYBE):
                         st[n] = DOC
             return
+        if nm in ("done", "cancelled", "result", "exception", "add_done_callback", "debug", "info", "warning", "error", "is_set", "set", "clear", "close"):
+            return
+        # any other callee that receives a handle (or a task created in the argument itself): ownership moves to code outside this typestate
+        passed = [n for a in list(e.args) + [k.value for k in e.keywords] for n in self.names_in(a, st)]
+        fresh = [a for a in list(e.args) + [k.value for k in e.keywords] for x in ast.walk(a) if isinstance(x, ast.Call) and creates_task(x)]
+        definite_not = nm in self.helpers and self.helpers[nm] is False
+        if (passed or fresh) and not definite_not:
+            for n in passed:
+                if st[n] in (PEND, MAYBE):
+                    st[n] = DOC
+            self.escaped.append((getattr(e, "lineno", 0), f"{ast.unparse(e.func)}({', '.join(passed) or 'a task created in the argument'})"))
 
     def run(self, stmts, st):
         for s in stmts:
@@ -153,6 +173,12 @@ class TaskTypestate:
             inner = val.value if aw else val
             if aw and self.on_await:
                 self.on_await(s, inner, dict(st))
+            if len(tgts) == 1 and isinstance(tgts[0], ast.Name) and isinstance(inner, (ast.Tuple, ast.List, ast.IfExp)):
+                alts = [inner.body, inner.orelse] if isinstance(inner, ast.IfExp) else [inner]
+                if all(isinstance(a_, (ast.Tuple, ast.List)) and all(isinstance(x_, ast.Name) for x_ in a_.elts) for a_ in alts):
+                    common = set.intersection(*[{x_.id for x_ in a_.elts} for a_ in alts])
+                    self.sets[tgts[0].id] = tuple(n_ for n_ in common if n_ in st)  # the handles that are in the collection whichever way it is built
+                    return st
             if isinstance(inner, ast.Call):
                 if creates_task(inner) and len(tgts) == 1 and isinstance(tgts[0], ast.Name):
                     v = tgts[0].id
@@ -162,9 +188,12 @@ class TaskTypestate:
                     self.created[v] = (ast.unparse(inner), s.lineno)
                     return st
                 members = self.names_in(inner.args[0], st) if (call_name(inner) == "wait" and inner.args) else []
+                if creates_task(inner):
+                    pass
                 self.do_call(inner, st, aw)
                 if call_name(inner) == "wait" and len(tgts) == 1 and isinstance(tgts[0], ast.Tuple) and len(tgts[0].elts) == 2 and isinstance(tgts[0].elts[1], ast.Name):
                     self.sets[tgts[0].elts[1].id] = tuple(members)
+                    self.__dict__.setdefault("wait_rest", set()).add(tgts[0].elts[1].id)
             return st
         if isinstance(s, ast.Expr):
             e = s.value
@@ -224,3 +253,30 @@ class TaskTypestate:
         end = self.run(fn.body, {})
         self.check_settled(end, getattr(fn, "end_lineno", fn.lineno), "function exit")
         return self.findings
+
+
+def connect_coroutine(CM):
+    """the coroutine a connection attempt runs in: the method that is spawned as a task (create_task / ensure_future of self.X()) and that reaches the await of
+    the connection factory, directly or through awaited helper coroutines of the class; falls back to the method that awaits the factory itself"""
+    def awaits_factory(f, seen=()):
+        if f is None or f.name in seen:
+            return False
+        for n in ast.walk(f.node):
+            if isinstance(n, ast.Await) and "factory" in ast.unparse(n):
+                return True
+            if isinstance(n, ast.Await) and isinstance(n.value, ast.Call) and isinstance(n.value.func, ast.Attribute) and isinstance(n.value.func.value, ast.Name) and n.value.func.value.id == "self":
+                if awaits_factory(CM.methods.get(n.value.func.attr), seen + (f.name,)):
+                    return True
+        return False
+    spawned = []
+    for f in CM.methods.values():
+        for n in ast.walk(f.node):
+            if isinstance(n, ast.Call) and creates_task(n) and n.args and isinstance(n.args[0], ast.Call) and isinstance(n.args[0].func, ast.Attribute) \
+                    and isinstance(n.args[0].func.value, ast.Name) and n.args[0].func.value.id == "self":
+                g = CM.methods.get(n.args[0].func.attr)
+                if g is not None and isinstance(g.node, ast.AsyncFunctionDef) and awaits_factory(g) and g not in spawned:
+                    spawned.append(g)
+    if len(spawned) == 1:
+        return spawned[0]
+    direct = [f for f in CM.methods.values() if isinstance(f.node, ast.AsyncFunctionDef) and any(isinstance(n, ast.Await) and "factory" in ast.unparse(n) for n in ast.walk(f.node))]
+    return direct[-1] if direct else None
